@@ -75,3 +75,30 @@ Proof.
   exists b, om. rewrite Hst. cbn. repeat split; assumption.
 Qed.
 Print Assumptions C03_burn.
+
+(* ---------- whole histories ---------- *)
+From MW.Proofs Require Import Maps Invariant Recovery Ledger Solvency.
+
+(* LST total + burnt = initial LST total + minted + re-basing, where minted / burnt are the amounts of the
+   token-factory messages the contract actually emitted: the circulating supply follows the State total *)
+Theorem C03_supply : forall va dv av s0 cs,
+  I_batches s0 ->
+  let '(s, g) := run va dv av s0 cs in
+  (Z.of_N (total_lst (st s)) + Z.of_N (g_burnt g) = Z.of_N (total_lst (st s0)) + Z.of_N (g_minted g) + g_adjL g)%Z.
+Proof.
+  intros va dv av s0 cs HI. pose proof (ledger va dv av s0 cs HI) as H.
+  destruct (run va dv av s0 cs) as [s g]. destruct H as [_ H]. exact H.
+Qed.
+Print Assumptions C03_supply.
+
+(* the contract's own LST holdings = pending batch total + refunded LST transfers awaiting re-send
+   (ghost wallet and assumptions as in C02) *)
+Theorem C03_holdings : forall va dv av sw cs,
+  Solvent sw -> all_ok va dv av sw cs ->
+  let '(s, w) := fold_left (wstep va dv av) cs sw in
+  (w_balL w = Z.of_N (pending_total s) + Z.of_N (refundable_total (L_of s) s))%Z.
+Proof.
+  intros va dv av sw cs H Hok. pose proof (solvency va dv av sw cs H Hok) as HS.
+  destruct (fold_left (wstep va dv av) cs sw) as [s w]. destruct HS as (_ & _ & _ & _ & _ & E). exact E.
+Qed.
+Print Assumptions C03_holdings.
